@@ -145,6 +145,8 @@ def report(pid, mod, args, seed, results, errors, wall):
         for k, v in (r.get('extra') or {}).items():
             if isinstance(v, bool):
                 extra[k] = extra.get(k, True) and v
+            elif isinstance(v, (int, float)) and k.endswith('_size'):
+                extra[k] = max(extra.get(k, 0), v)       # a property of the space, the same in every shard
             elif isinstance(v, (int, float)):
                 extra[k] = extra.get(k, 0) + v
             else:
